@@ -141,6 +141,9 @@ def correspondence(rep, ctx, ncases=None):
                 rep.violation("failing-input", f"{'Inventory' if cls == 'float' else 'InventoryHP'}({contents!r}, {unit!r})"
                               f".cumulative_decays({t!r}, {tu!r}): {msg}",
                               {"call": "cumulative_decays", "cls": cls, "contents": contents, "unit": unit, "t": t, "tu": tu}, True)
+    import synthetic
+    bad += synthetic.decay_block(rep, ctx, "c03/synthetic", kinds=("cumulative_decays",))
+    bad += synthetic.decay_block(rep, ctx, "c03/synthetic-hp", kinds=("cumulative_decays",), ndatasets=(4 if thorough else 1), per=2, hp=True)
     rep.corr["input_distribution"].update(gen.dist)
     rep.notes["mismatches"] = bad
 
